@@ -1354,6 +1354,9 @@ pub fn parse(src: &[u8], mode: Mode) -> Result<Parsed, ParseError> {
     if !matches!(p.cur(), Tok::Eof) {
         return p.err(format!("unexpected token {:?} at top level", p.cur()));
     }
+    if let Some(msg) = super::validate::validate(&block) {
+        return Err(ParseError { pos: 0, msg });
+    }
     Ok(Parsed {
         block,
         tokens: p.toks,
